@@ -736,3 +736,213 @@ Proof.
   destruct (e2e_keys_max QAlg (fun d => 0 < d) wf_frac QAlg_laws c thr g ns shapes Hre Hthr H) as (I & HT & HK).
   exists I. split; [exact HT|]. intros sh Hsh. apply (HK sh Hsh). auto.
 Qed.
+
+(** ** 4. C09: statement order *)
+
+(** *** the counts depend on the instance dictionary only through, for each
+    node, the multiset of its classes *)
+Definition insts_equiv (I I' : insts) : Prop :=
+  NoDup (dkeys I) /\ NoDup (dkeys I') /\
+  (forall i, dmem I i = dmem I' i) /\
+  (forall i, Permutation (classes_of I i) (classes_of I' i)).
+
+Lemma insts_equiv_refl I : NoDup (dkeys I) -> insts_equiv I I.
+Proof. intros H. repeat split; auto. Qed.
+
+Lemma insts_equiv_sym I I' : insts_equiv I I' -> insts_equiv I' I.
+Proof.
+  intros (A & B & D & E). repeat split; auto. intros i. apply Permutation_sym, E.
+Qed.
+
+Lemma count_in_perm k l l' : Permutation l l' -> count_in k l = count_in k l'.
+Proof. induction 1; cbn; lia. Qed.
+
+Lemma insts_as_map (I : insts) :
+  NoDup (dkeys I) -> I = map (fun i => (i, classes_of I i)) (dkeys I).
+Proof.
+  intros Hn. unfold dkeys. rewrite map_map.
+  rewrite <- (map_id I) at 1. apply map_ext_in. intros [i cs] Hin. cbn [fst].
+  unfold classes_of. rewrite (In_dget_NoDup I i cs Hn Hin). reflexivity.
+Qed.
+
+Lemma dkeys_perm (I I' : insts) : insts_equiv I I' -> Permutation (dkeys I) (dkeys I').
+Proof.
+  intros (A & B & D & _). apply NoDup_Permutation; auto.
+  intros i. rewrite <- !dmem_In, D. tauto.
+Qed.
+
+(** a sum over the dictionary, as a sum over its keys *)
+Lemma sum_over_insts (F : str -> list str -> N) (I : insts) :
+  NoDup (dkeys I) ->
+  sumN (map (fun ie : str * list str => F (fst ie) (snd ie)) I) =
+  sumN (map (fun i => F i (classes_of I i)) (dkeys I)).
+Proof.
+  intros Hn. rewrite (insts_as_map I Hn) at 1. rewrite map_map. reflexivity.
+Qed.
+
+Lemma sum_insts_equiv (F F' : str -> list str -> N) (I I' : insts) :
+  insts_equiv I I' ->
+  (forall i, F i (classes_of I i) = F' i (classes_of I' i)) ->
+  sumN (map (fun ie : str * list str => F (fst ie) (snd ie)) I) =
+  sumN (map (fun ie : str * list str => F' (fst ie) (snd ie)) I').
+Proof.
+  intros He HF. pose proof (dkeys_perm I I' He) as HP. destruct He as (A & B & _ & _).
+  rewrite (sum_over_insts F I A), (sum_over_insts F' I' B).
+  rewrite (sumN_perm _ _ (Permutation_map (fun i => F i (classes_of I i)) HP)).
+  apply sumN_map_ext. intros i _. apply HF.
+Qed.
+
+Theorem class_count_insts_equiv I I' cls :
+  insts_equiv I I' -> class_count I cls = class_count I' cls.
+Proof.
+  intros He. unfold class_count.
+  apply (sum_insts_equiv (fun _ cs => count_in cls cs) (fun _ cs => count_in cls cs) I I' He).
+  intros i. apply count_in_perm. destruct He as (_ & _ & _ & E). apply E.
+Qed.
+
+Lemma shape_labels_perm I I' id :
+  insts_equiv I I' -> Permutation (shape_labels I id) (shape_labels I' id).
+Proof. intros (_ & _ & _ & E). unfold shape_labels. apply Permutation_map, E. Qed.
+
+Lemma contrib_perm dir tau I I' t i p :
+  insts_equiv I I' -> Permutation (contrib dir tau I t i p) (contrib dir tau I' t i p).
+Proof.
+  intros He. pose proof (shape_labels_perm I I') as HL. unfold contrib. destruct dir.
+  - destruct (str_eqb (nid (ts t)) i && str_eqb (tp t) p); [|apply Permutation_refl].
+    unfold keys_direct. destruct (to t) as [o|l dt]; [|apply Permutation_refl].
+    destruct (str_eqb (tp t) tau).
+    + apply perm_skip. destruct (str_eqb (nid o) c_IRI_ELEM_TYPE || str_eqb (nid o) c_BNODE_ELEM_TYPE);
+        [apply HL; exact He | apply Permutation_refl].
+    + apply perm_skip. apply HL; exact He.
+  - destruct (to t) as [o|l dt]; [|apply Permutation_refl].
+    destruct (str_eqb (nid o) i && str_eqb (tp t) p); [|apply Permutation_refl].
+    unfold keys_inverse. destruct (str_eqb (tp t) tau).
+    + apply perm_skip. destruct (str_eqb (nid (ts t)) c_IRI_ELEM_TYPE); [apply HL; exact He | apply Permutation_refl].
+    + apply perm_skip. destruct (nk (ts t)); [apply HL; exact He | apply Permutation_refl].
+Qed.
+
+Theorem cnt_insts_equiv dir tau I I' G i p k :
+  insts_equiv I I' -> cnt dir tau I G i p k = cnt dir tau I' G i p k.
+Proof.
+  intros He. unfold cnt. apply sumN_map_ext. intros t _. apply count_in_perm, contrib_perm, He.
+Qed.
+
+Theorem occ_insts_equiv dir tau I I' G cls p k card :
+  insts_equiv I I' -> occ dir tau I G cls p k card = occ dir tau I' G cls p k card.
+Proof.
+  intros He. unfold occ.
+  apply (sum_insts_equiv
+           (fun i cs => if card_ok tau p card (cnt dir tau I G i p k) then count_in cls cs else 0)
+           (fun i cs => if card_ok tau p card (cnt dir tau I' G i p k) then count_in cls cs else 0) I I' He).
+  intros i. rewrite (cnt_insts_equiv dir tau I I' G i p k He).
+  destruct (card_ok tau p card _); [|reflexivity].
+  apply count_in_perm. destruct He as (_ & _ & _ & E). apply E.
+Qed.
+
+(** both at once: another order of the statements, an equivalent dictionary *)
+Theorem occ_perm_equiv dir tau I I' G G' cls p k card :
+  insts_equiv I I' -> Permutation G G' ->
+  occ dir tau I G cls p k card = occ dir tau I' G' cls p k card.
+Proof. intros He HP. rewrite (occ_insts_equiv dir tau I I' G cls p k card He). apply occ_perm, HP. Qed.
+
+Lemma class_keys_In targets (I : insts) cls :
+  In cls (class_keys targets I) <-> In cls targets \/ 0 < class_count I cls.
+Proof.
+  unfold class_keys. rewrite uniq_first_first_occ, In_first_occ, in_app_iff, class_count_concat, count_str_pos. tauto.
+Qed.
+
+Lemma class_keys_insts_equiv targets I I' cls :
+  insts_equiv I I' -> (In cls (class_keys targets I) <-> In cls (class_keys targets I')).
+Proof. intros He. rewrite !class_keys_In, (class_count_insts_equiv I I' cls He). tauto. Qed.
+
+(** *** the tracker without cap: a set characterisation *)
+Definition objid (t : triple) : str := match to t with ON o => nid o | OL _ _ => [] end.
+
+Definition about (tau : str) (m : tmode) (i : str) (t : triple) : bool :=
+  relevant tau m t && str_eqb (nid (ts t)) i.
+
+Lemma classes_of_dupd (d : insts) k x i :
+  classes_of (dupd d k [] (fun cs => cs ++ [x])) i =
+  if str_eqb k i then classes_of d i ++ [x] else classes_of d i.
+Proof.
+  unfold classes_of. rewrite dget_dupd. destruct (str_eqb k i) eqn:E; [|reflexivity].
+  apply str_eqb_eq in E. subst i. unfold dupd_val. destruct (dget d k); reflexivity.
+Qed.
+
+(** instance [i] ends up with the objects of the relevant triples about it,
+    in order, after what it had; it is a key iff it was one or there is such
+    a triple *)
+Lemma track_plain_char tau m g : forall d I,
+  track_plain tau m g d = inl I ->
+  (forall i, classes_of I i = classes_of d i ++ map objid (filter (about tau m i) g)) /\
+  (forall i, dmem I i = dmem d i || existsb (about tau m i) g).
+Proof.
+  induction g as [|t g IH]; intros d I H; cbn [track_plain] in H.
+  - injection H as <-. split; intros i; cbn; [rewrite app_nil_r | rewrite orb_false_r]; reflexivity.
+  - destruct (relevant tau m t) eqn:Hr.
+    + unfold annotate in H. destruct (to t) as [o|l dt] eqn:Eo; [|discriminate].
+      destruct (IH _ _ H) as [A B]. split; intros i.
+      * rewrite A, classes_of_dupd. cbn [filter]. unfold about at 2. rewrite Hr. cbn [andb].
+        destruct (str_eqb (nid (ts t)) i); [|reflexivity].
+        cbn [map]. unfold objid at 2. rewrite Eo. rewrite <- app_assoc. reflexivity.
+      * rewrite B, dmem_dupd. cbn [existsb]. unfold about at 2. rewrite Hr. cbn [andb].
+        destruct (str_eqb (nid (ts t)) i), (dmem d i); reflexivity.
+    + destruct (IH _ _ H) as [A B]. split; intros i.
+      * rewrite A. cbn [filter]. unfold about at 2. rewrite Hr. reflexivity.
+      * rewrite B. cbn [existsb]. unfold about at 2. rewrite Hr. reflexivity.
+Qed.
+
+(** it fails exactly on a relevant triple with a literal object (all-classes
+    mode only: with target classes a relevant object is an IRI) *)
+Lemma track_plain_ok_iff tau m g : forall d,
+  (exists I, track_plain tau m g d = inl I) <->
+  (forall t, In t g -> relevant tau m t = true -> is_node (to t) = true).
+Proof.
+  induction g as [|t g IH]; intros d; cbn [track_plain].
+  - split; [intros _ t [] | intros _; eexists; reflexivity].
+  - destruct (relevant tau m t) eqn:Hr.
+    + unfold annotate. destruct (to t) as [o|l dt] eqn:Eo.
+      * rewrite IH. split.
+        -- intros H t' [<-|Ht'] Hr'; [rewrite Eo; reflexivity | apply H; assumption].
+        -- intros H t' Ht'. apply H. right; exact Ht'.
+      * split; [intros [I H]; discriminate H|].
+        intros H. specialize (H t (or_introl eq_refl) Hr). rewrite Eo in H. discriminate H.
+    + rewrite IH. split.
+      * intros H t' [<-|Ht'] Hr'; [congruence | apply H; assumption].
+      * intros H t' Ht'. apply H. right; exact Ht'.
+Qed.
+
+Lemma perm_filter {A} (f : A -> bool) l l' : Permutation l l' -> Permutation (filter f l) (filter f l').
+Proof.
+  induction 1 as [|x l l' _ IH|x y l|l l' l'' _ IH1 _ IH2]; cbn.
+  - constructor.
+  - destruct (f x); [apply perm_skip|]; exact IH.
+  - destruct (f x), (f y); try apply Permutation_refl. apply perm_swap.
+  - eapply Permutation_trans; eassumption.
+Qed.
+
+Lemma existsb_perm {A} (f : A -> bool) l l' : Permutation l l' -> existsb f l = existsb f l'.
+Proof. induction 1; cbn; try congruence. destruct (f x), (f y); reflexivity. Qed.
+
+(** C09 (b): without cap, permuting the statements gives a dictionary with the
+    same instances and, per instance, the same classes up to order *)
+Theorem track_perm tau m cap g g' I :
+  (cap <= 0)%Z -> Permutation g g' -> track tau m cap g = inl I ->
+  exists I', track tau m cap g' = inl I' /\ insts_equiv I I'.
+Proof.
+  intros Hcap HP H.
+  assert (Ok' : exists I', track tau m cap g' = inl I').
+  { unfold track in *. apply Z.leb_le in Hcap. rewrite Hcap in *.
+    apply track_plain_ok_iff. intros t Ht.
+    apply (proj1 (track_plain_ok_iff tau m g []) (ex_intro _ I H)).
+    apply (Permutation_in _ (Permutation_sym HP)). exact Ht. }
+  destruct Ok' as [I' H']. exists I'. split; [exact H'|].
+  pose proof (proj1 (track_insts_ok tau m cap g I H)) as N1.
+  pose proof (proj1 (track_insts_ok tau m cap g' I' H')) as N2.
+  unfold track in H, H'. apply Z.leb_le in Hcap. rewrite Hcap in H, H'.
+  destruct (track_plain_char tau m g [] I H) as [A B].
+  destruct (track_plain_char tau m g' [] I' H') as [A' B'].
+  split; [exact N1|]. split; [exact N2|]. split; intros i.
+  - rewrite B, B'. cbn. apply existsb_perm, HP.
+  - rewrite A, A'. cbn. apply Permutation_map, perm_filter, HP.
+Qed.
